@@ -483,10 +483,12 @@ class Gen:
             if L == 0:
                 return 0
             v = self._uint(path, 8 * L, cur) if name == 'VarUInteger' else self._int(path, 8 * L, cur)
+            kidx = self.pol.varcount - 1
+            top = getattr(self.pol, 'top_bit', False) and getattr(self.pol, 'general', None) != kidx
             if getattr(self.pol, 'minimal', False):
                 # canonical (minimal) byte length, as serialisers emit it
                 if name == 'VarUInteger':
-                    w.assume(v >= (1 << (8 * (L - 1))))
+                    w.assume(v >= (1 << (8 * L - 1 if top else 8 * (L - 1))))
                 elif L > 1:
                     w.assume(w.Or(v >= (1 << (8 * (L - 1) - 1)), v < -(1 << (8 * (L - 1) - 1))))
                 else:
@@ -935,6 +937,20 @@ def fits(typename, args, own, prof, rot, addr_var=False):
         return True
     except DoesNotFit:
         return False
+
+
+def count_var_fields(typename, args, own):
+    class P(Policy):
+        pass
+    best = 0
+    for prof in (0, 1):
+        pol = P(own=dict(own), prof=prof)
+        try:
+            generate(_DryWorld(), typename, args, pol, cell_factory=lambda p: object())
+        except TlbError:
+            pass
+        best = max(best, pol.varcount)
+    return best
 
 
 def max_var_n(typename, args=()):
